@@ -1465,41 +1465,49 @@ mod stepper {
             return;
         }
         FORKS.fetch_add(1, Ordering::Relaxed);
-        let pid = unsafe { libc::fork() };
-        if pid == 0 {
-            // the child: deliver here, then let the interrupted operation finish unstepped
-            IS_CHILD.store(true, Ordering::SeqCst);
-            CHILD_STEP.store(n, Ordering::SeqCst);
-            unsafe {
-                libc::alarm(1);
-                (*uc).uc_mcontext.gregs[libc::REG_EFL as usize] &= !0x100;
-            }
-            let _ = crate::sched::HANDLER_DEPTH.try_with(|d| d.set(d.get() + 1));
-            let _ = crate::sched::H_ALLOCS.try_with(|c| c.set(0));
-            let _ = crate::sched::H_FREES.try_with(|c| c.set(0));
-            unsafe { libc::raise(NEST_SIG.load(Ordering::SeqCst)) };
-            let _ = crate::sched::HANDLER_DEPTH.try_with(|d| d.set(d.get() - 1));
-            H_ALLOC.store(crate::sched::H_ALLOCS.try_with(|c| c.get()).unwrap_or(0) as usize, Ordering::SeqCst);
-            H_FREE.store(crate::sched::H_FREES.try_with(|c| c.get()).unwrap_or(0) as usize, Ordering::SeqCst);
-            return;
-        }
-        // the parent: wait for the verdict of that child (bounded), keep stepping
+        // a delivery that does not return within 1 s is tried once more, from the same boundary, with a
+        // 5 s watchdog: only a confirmed hang counts (a starved machine must not look like a deadlock)
         let mut st: c_int = 0;
-        let mut waited = 0;
-        loop {
-            let r = unsafe { libc::waitpid(pid, &mut st, libc::WNOHANG) };
-            if r == pid {
-                break;
-            }
-            let ts = libc::timespec { tv_sec: 0, tv_nsec: 200_000 };
-            unsafe { libc::nanosleep(&ts, std::ptr::null_mut()) };
-            waited += 1;
-            if waited > 8_000 {
+        for attempt in 0..2 {
+            let secs: u32 = if attempt == 0 { 1 } else { 5 };
+            let pid = unsafe { libc::fork() };
+            if pid == 0 {
+                // the child: deliver here, then let the interrupted operation finish unstepped
+                IS_CHILD.store(true, Ordering::SeqCst);
+                CHILD_STEP.store(n, Ordering::SeqCst);
                 unsafe {
-                    libc::kill(pid, libc::SIGKILL);
-                    libc::waitpid(pid, &mut st, 0);
+                    libc::alarm(secs);
+                    (*uc).uc_mcontext.gregs[libc::REG_EFL as usize] &= !0x100;
                 }
-                st = 14; // as if the watchdog had fired
+                let _ = crate::sched::HANDLER_DEPTH.try_with(|d| d.set(d.get() + 1));
+                let _ = crate::sched::H_ALLOCS.try_with(|c| c.set(0));
+                let _ = crate::sched::H_FREES.try_with(|c| c.set(0));
+                unsafe { libc::raise(NEST_SIG.load(Ordering::SeqCst)) };
+                let _ = crate::sched::HANDLER_DEPTH.try_with(|d| d.set(d.get() - 1));
+                H_ALLOC.store(crate::sched::H_ALLOCS.try_with(|c| c.get()).unwrap_or(0) as usize, Ordering::SeqCst);
+                H_FREE.store(crate::sched::H_FREES.try_with(|c| c.get()).unwrap_or(0) as usize, Ordering::SeqCst);
+                return;
+            }
+            // the parent: wait for the verdict of that child (bounded), keep stepping
+            let mut waited = 0u32;
+            loop {
+                let r = unsafe { libc::waitpid(pid, &mut st, libc::WNOHANG) };
+                if r == pid {
+                    break;
+                }
+                let ts = libc::timespec { tv_sec: 0, tv_nsec: 200_000 };
+                unsafe { libc::nanosleep(&ts, std::ptr::null_mut()) };
+                waited += 1;
+                if waited > secs * 5_000 + 3_000 {
+                    unsafe {
+                        libc::kill(pid, libc::SIGKILL);
+                        libc::waitpid(pid, &mut st, 0);
+                    }
+                    st = 14; // as if the watchdog had fired
+                    break;
+                }
+            }
+            if !(libc::WIFSIGNALED(st) && libc::WTERMSIG(st) == libc::SIGALRM) {
                 break;
             }
         }
